@@ -452,6 +452,11 @@ func execRawSrv(e *Env, pp any) {
 	}
 	if p.Hostile {
 		checkHostileClient(e, sim, p, sent, okEnd, closed)
+		if p.Stats {
+			// C20, client side only: whatever the peer sent, each client stats handler saw
+			// one Begin and one End whose error is nil exactly when the caller saw success
+			checkSide(&MixRun{E: e, Sim: sim, Net: net, Obs: obs, P: &MixParams{}, ClientSideOnly: true})
+		}
 	} else {
 		checkForeign(e, sim, p, closed)
 	}
@@ -659,6 +664,6 @@ func genRawHostileAt(idx uint64, g *rand.Rand, tier string) any {
 func init() {
 	Register(&Family{Name: "raw.foreign", ShrinkKeys: []string{"seq"}, Props: []string{"C03", "C05"}, New: func() any { return &RawSrvParams{} }, Gen: genRawValid, Exec: execRawSrv,
 		Faulty: true, FaultKinds: []string{"link.readFail"}})
-	Register(&Family{Name: "raw.hostile-server", ShrinkKeys: []string{"seq"}, Props: []string{"C13", "C11"}, New: func() any { return &RawSrvParams{} }, Gen: genRawHostile, GenAt: genRawHostileAt, Exec: execRawSrv,
+	Register(&Family{Name: "raw.hostile-server", ShrinkKeys: []string{"seq"}, Props: []string{"C13", "C11", "C20"}, New: func() any { return &RawSrvParams{} }, Gen: genRawHostile, GenAt: genRawHostileAt, Exec: execRawSrv,
 		Faulty: true, FaultKinds: []string{"peer.malformed", "link.readFail"}})
 }
